@@ -22,6 +22,15 @@ constexpr auto submdspan_static_extent()
 {
     using IndexT = typename Extent::index_type;
 
+    // [mdspan.sub.extents]: a pair of integral constants gives a static extent whatever the source extent is
+    if constexpr (not etl::is_convertible_v<Sk, etl::full_extent_t> and not is_strided_slice<Sk>) {
+        if constexpr (index_pair_like<Sk, IndexT>) {
+            if constexpr (integral_constant_like<etl::tuple_element_t<0, Sk>> and integral_constant_like<etl::tuple_element_t<1, Sk>>) {
+                return static_cast<etl::size_t>(de_ice(etl::tuple_element_t<1, Sk>()) - de_ice(etl::tuple_element_t<0, Sk>()));
+            }
+        }
+    }
+
     if constexpr (Extent::static_extent(Extent::rank() - K) != etl::dynamic_extent) {
         if constexpr (etl::is_convertible_v<Sk, etl::full_extent_t>) {
             return Extent::static_extent(Extent::rank() - K);
